@@ -47,4 +47,189 @@ theorem step_refines (c : Cfg) {s s' : State} {l : Label} (h : Reach c s)
 theorem head_end_iff_nil (c : Cfg) {s : State} (h : Reach c s) : s.head = END ↔ s.abs = [] :=
   chain_nil_iff (inv_reach c h).chain
 
+
+/-- **no ABA** (mutex / single consumer): when the popper's cmpxchg is about to succeed
+(`head` is the node it loaded), the `next` value it read earlier is still the node's successor:
+the abstract stack is `h :: l` and `nx` heads exactly `l`. -/
+theorem no_aba (c : Cfg) {s : State} (h : Reach c s) (t : Nat) (b : Bool) (h0 nx : Nat)
+    (hp : s.pc t = .popCas b h0 nx) (hb : s.buf t = []) (hhd : s.head = h0) :
+    ∃ l, s.abs = h0 :: l ∧ Chain s nx l := by
+  have I := inv_reach c h
+  have hR := I.popR3 t b h0 nx hp
+  have hne : s.head ≠ END := by
+    intro e; have := (chain_nil_iff I.chain).1 e; rw [this] at hR; simp at hR
+  obtain ⟨b1, r, e1, hn1, hl1, hc1⟩ := chain_cons_inv I.chain hne
+  have hnx : s.next h0 = nx := by
+    rcases hR.2.2.2 with h1 | h1
+    · exact h1
+    · rw [hb] at h1; simp at h1
+  have hb1 : b1 = nx := by
+    rw [hhd] at hl1
+    rcases hl1 with ⟨h1, h2⟩ | ⟨h1, _⟩
+    · rw [← h1, hnx]
+    · rw [hnx] at h1; exact absurd h1 hR.2.2.1
+  subst hb1
+  exact ⟨r, hhd ▸ e1, hc1⟩
+
+/-- a successful pop returns the abstract top; `CDS_WFS_STATE_LAST` is reported iff the stack
+became empty -/
+theorem pop_result (c : Cfg) {s s' : State} (h : Reach c s) (t : Nat) (b : Bool) (h0 nx : Nat)
+    (hp : s.pc t = .popCas b h0 nx) (hhd : s.head = h0) (st : step c s (.popCas t) = some s') :
+    s.abs = h0 :: s'.abs ∧ s'.ret t = .node h0 (nx == END) ∧ ((nx == END) = true ↔ s'.abs = []) ∧
+    s'.head = nx := by
+  simp only [step, hp] at st
+  split at st
+  · next hb =>
+    obtain ⟨l, e1, hc1⟩ := no_aba c h t b h0 nx hp hb hhd
+    simp only [hhd, if_true, Option.some.injEq] at st
+    subst st
+    simp only [e1, List.tail_cons, upd_same, true_and]
+    have := chain_nil_iff hc1
+    simp [this]
+  · simp at st
+
+/-- **pop_all**: one `xchg`; the returned head is the start of a chain whose logical content is
+exactly the abstract stack at that instant, top first; the stack is empty afterwards -/
+theorem popAll_result (c : Cfg) {s s' : State} (h : Reach c s) (t : Nat)
+    (st : step c s (.popAll t) = some s') :
+    s'.head = END ∧ s'.abs = [] ∧ s'.priv t = s.abs ∧ s'.cur t = s.head ∧
+    Chain s' (s'.cur t) s.abs ∧
+    s'.ret t = (if s.abs = [] then .null else .head s.head) := by
+  have I' := inv_reach c (Reach.step h st)
+  have hn := head_end_iff_nil c h
+  have hpc := I'.pchain t
+  simp only [step] at st
+  split at st
+  · simp only [Option.some.injEq] at st; subst st
+    simp only [upd_same] at hpc
+    refine ⟨rfl, rfl, by simp, by simp, by simpa using hpc, ?_⟩
+    by_cases e : s.head = END
+    · simp [e, hn.1 e]
+    · simp [e, (not_congr hn).1 e]
+  · simp at st
+
+/-- **iteration is exact**: an iterator step that advances hands out the nodes of the popped
+list in order (the first one is `cds_wfs_first` = the returned head) -/
+theorem iter_exact (c : Cfg) {s s' : State} (h : Reach c s) (t : Nat) (b : Bool)
+    (st : step c s (.iterNext t b) = some s') (hadv : s'.cur t ≠ s.cur t) :
+    ∃ r, s.priv t = s.cur t :: r ∧ s'.priv t = r ∧ Chain s' (s'.cur t) r ∧
+      s'.ret t = (if r = [] then .null else .node (s'.cur t) false) := by
+  have I := inv_reach c h
+  have I' := inv_reach c (Reach.step h st)
+  have hpc' := I'.pchain t
+  simp only [step] at st
+  split at st
+  · next g =>
+    obtain ⟨b1, r, e1, hn1, hl1, hc1⟩ := chain_cons_inv (I.pchain t) g.2
+    split at st
+    · split at st
+      · simp only [Option.some.injEq] at st; subst st; exact absurd rfl hadv
+      · simp only [Option.some.injEq] at st; subst st; exact absurd rfl hadv
+    · simp only [Option.some.injEq] at st; subst st
+      refine ⟨_, ?_, rfl, hpc', ?_⟩
+      · simp [e1]
+      · have := chain_nil_iff hpc'
+        simp only [upd_same] at this ⊢
+        by_cases e : rd s t (s.cur t) = END
+        · simp [e, this.1 e]
+        · simp [e, (not_congr this).1 e]
+  · simp at st
+
+/-- **iteration past an incomplete push**: if the iterator's current node has no visible `next`
+yet, a push of that node is in flight (its pusher is between its `xchg` and its store, or the
+store sits in the pusher's store buffer); the blocking variant keeps waiting (no progress, no
+wrong answer), the non-blocking variant returns `CDS_WFS_WOULDBLOCK` and keeps its position. -/
+theorem iter_incomplete (c : Cfg) {s : State} (h : Reach c s) (t : Nat)
+    (hp : s.pc t = .idle) (hcur : s.cur t ≠ END) (hrd : rd s t (s.cur t) = 0) :
+    (∃ u b, PendC s u (s.cur t) b) ∧
+    step c s (.iterNext t true) = some s ∧
+    ∃ s', step c s (.iterNext t false) = some s' ∧ s'.ret t = .wouldblock ∧
+      s'.cur t = s.cur t ∧ s'.priv t = s.priv t ∧ s'.abs = s.abs := by
+  have I := inv_reach c h
+  refine ⟨?_, by simp [step, hp, hcur, hrd], { s with ret := upd s.ret t .wouldblock },
+    by simp [step, hp, hcur, hrd], by simp, rfl, rfl, rfl⟩
+  obtain ⟨b1, r, e1, hn1, hl1, hc1⟩ := chain_cons_inv (I.pchain t) hcur
+  rcases rd_cases s t (s.cur t) with h1 | ⟨h1, _⟩
+  · rw [hrd] at h1
+    have := I.bufInit t _ h1
+    rw [hp] at this; simp at this
+  · rw [hrd] at h1
+    rcases hl1 with ⟨h2, h3⟩ | ⟨_, u, h3⟩
+    · rw [← h1] at h2; exact absurd h2.symm h3
+    · exact ⟨u, b1, h3⟩
+
+/-- same for pop: `___cds_wfs_node_sync_next` sees NULL only while a push of the top node is in
+flight; blocking pop waits, non-blocking pop returns WOULDBLOCK without touching the stack -/
+theorem pop_incomplete (c : Cfg) {s : State} (h : Reach c s) (t : Nat) (b : Bool) (h0 : Nat)
+    (hp : s.pc t = .popSync b h0) (hrd : rd s t h0 = 0) :
+    (∃ u o, PendC s u h0 o) ∧
+    (b = true → step c s (.popSync t) = some s) ∧
+    (b = false → ∃ s', step c s (.popSync t) = some s' ∧ s'.ret t = .wouldblock ∧ s'.pc t = .idle ∧
+      s'.abs = s.abs ∧ s'.head = s.head) := by
+  have I := inv_reach c h
+  have hR := I.popR2 t b h0 hp
+  refine ⟨?_, ?_, ?_⟩
+  · have hst := (I.abs_st h0).1 hR.2
+    -- h0 is in the abstract stack: it has a logical successor
+    have : ∀ {hd l}, Chain s hd l → h0 ∈ l → ∃ b1, lnext s h0 b1 := by
+      intro hd l hc
+      induction hc with
+      | nil => intro hm; simp at hm
+      | cons hn hl _ ih =>
+        intro hm
+        simp only [List.mem_cons] at hm
+        rcases hm with e | hm
+        · subst e; exact ⟨_, hl⟩
+        · exact ih hm
+    obtain ⟨b1, hl1⟩ := this I.chain hR.2
+    rcases rd_cases s t h0 with h1 | ⟨h1, _⟩
+    · rw [hrd] at h1
+      have := I.bufInit t _ h1
+      rw [hp] at this; simp at this
+    · rw [hrd] at h1
+      rcases hl1 with ⟨h2, h3⟩ | ⟨_, u, h3⟩
+      · rw [← h1] at h2; exact absurd h2.symm h3
+      · exact ⟨u, b1, h3⟩
+  · intro hb; subst hb; simp [step, hp, hrd]
+  · intro hb; subst hb
+    exact ⟨{ s with pc := upd s.pc t .idle, ret := upd s.ret t .wouldblock },
+      by simp [step, hp, hrd], by simp, by simp, rfl, rfl⟩
+
+/-- push: the value returned ("stack was non-empty") is computed from the head value replaced
+by the `xchg`, which is `END` iff the abstract stack is empty at that instant -/
+theorem push_result (c : Cfg) {s s' : State} (h : Reach c s) (t n : Nat)
+    (hp : s.pc t = .pushX n) (st : step c s (.pushX t) = some s') :
+    s'.abs = n :: s.abs ∧ s'.pc t = .pushSt n s.head ∧ ((s.head != END) = !s.abs.isEmpty) := by
+  have I := inv_reach c h
+  simp only [step, hp] at st
+  split at st
+  · simp only [Option.some.injEq] at st; subst st
+    exact ⟨rfl, by simp, head_end_iff I.chain⟩
+  · simp at st
+
+theorem push_ret (c : Cfg) {s s' : State} (t n o : Nat)
+    (hp : s.pc t = .pushSt n o) (st : step c s (.pushSt t) = some s') :
+    s'.ret t = .flag (o != END) ∧ s'.pc t = .idle := by
+  simp only [step, hp, Option.some.injEq] at st
+  subst st
+  simp
+
+theorem empty_result (c : Cfg) {s s' : State} (h : Reach c s) (t : Nat)
+    (st : step c s (.empty t) = some s') : s'.ret t = .flag s.abs.isEmpty ∧ s'.abs = s.abs := by
+  have I := inv_reach c h
+  simp only [step] at st
+  split at st
+  · simp only [Option.some.injEq] at st; subst st
+    simp [head_end_iff' I.chain]
+  · simp at st
+
+/-- an empty pop (returns NULL) happens only on an empty abstract stack -/
+theorem pop_null (c : Cfg) {s s' : State} (h : Reach c s) (t : Nat) (b : Bool)
+    (hp : s.pc t = .popLd b) (hh : s.head = END) (st : step c s (.popLd t) = some s') :
+    s.abs = [] ∧ s'.ret t = .null ∧ s'.abs = [] := by
+  have hn := (head_end_iff_nil c h).1 hh
+  simp only [step, hp, hh, if_true, Option.some.injEq] at st
+  subst st
+  simp [hn]
+
 end UrcuVerif.Wfs
